@@ -27,8 +27,8 @@ for p in props:
         "evidence_file":"/verif/evidence/%s.json"%pid,
         "replay_cmd_template":"/verif/check %s --replay {path}"%pid,
         "engine":"gose",
-        "level_claimed":{"category":"model_checking","text":c["text"],"design_ref":c.get("design_ref","DESIGN.md §4 "+pid)},
-        "level_note":c["note"],
+        "level_claimed":{"category":"model_checking","text":c["text"],"design_ref":c.get("design_ref","DESIGN.md part A (A.2, "+pid+")")},
+        "level_note":c["note"]+(" Thorough tier: runs the quick bounds (the deeper bounds were not seen to run clean within the session, so they are not registered)." if pid in spec.get("thorough_runs_quick_bounds",[]) else ""),
         "technique":c.get("technique","bounded symbolic execution of the real Go functions (go/ssa → SMT-LIB2, z3/cvc5), counterexamples replayed natively"),
     })
 json.dump(man,open('/verif/MANIFEST.json','w'),indent=1)
